@@ -19,19 +19,24 @@ func symxPar(a, b func()) {
 
 // symxC20Pool: concurrent allocate / release on the identifier pool.
 func symxC20Pool() {
-	p := newMIDPool(0, 3)
+	max := int32(rt.Int("max", 1, 3))
+	p := newMIDPool(0, max)
 	first := p.Get()
 	var x, y int32 = -7, -7
 	switch rt.Int("pair", 0, 2) {
 	case 0:
 		symxPar(func() { x = p.Get() }, func() { y = p.Get() })
-		rt.Assert(x != y && x != first && y != first, "C20.pool.concurrent_gets_are_distinct")
+		rt.Assert(x != first && y != first, "C20.pool.concurrent_gets_avoid_outstanding_ids")
+		// with a single free identifier one of the two must be told the pool is exhausted
+		rt.Assert(x != y || (x == -1 && max == 0), "C20.pool.concurrent_gets_are_distinct")
+		rt.Assert(max > 1 || (x == -1) != (y == -1), "C20.pool.last_identifier_handed_out_once")
 	case 1:
 		symxPar(func() { x = p.Get() }, func() { p.Put(first) })
-		rt.Assert(x >= 0 && x <= 3, "C20.pool.get_beside_put_in_range")
+		rt.Assert(x >= 0 && x <= max, "C20.pool.get_beside_put_in_range")
 		z := p.Get()
 		rt.Assert(z != x && z >= 0, "C20.pool.no_duplicate_after_get_beside_put")
 	case 2:
+		rt.Assume(max >= 2)
 		second := p.Get()
 		symxPar(func() { p.Put(first) }, func() { p.Put(second) })
 		a, b := p.Get(), p.Get()
